@@ -155,6 +155,26 @@ def run(ctx, res):
             mism.append(("combine", line))
     res.sample({"combine": lines[0], "model_out": ctx.model([lines[0]])[0][:200]})
 
+    # cross-check of extraction: a sample of the cases re-evaluated inside Coq
+    import common
+    sample = [(c, line) for c, line in zip(cs, outs) if len(c[2]) <= 6][:: max(1, len(cs) // 60)][:60]
+    checks = []
+    for (kind, k, vs, nfr), line in sample:
+        m = parse_model(line)
+        if m[0] != "ok":
+            continue
+        checks.append("let '(ok, nx, cl) := run_request %d %s %d %s in ok && (nx =? %d) && zll_eqb cl %s" % (
+            nfr, kind, k, common.coq_list(vs), m[1], common.coq_llist(m[2])))
+    try:
+        n, bad = common.coq_crosscheck("C10", "Core.CnfModel Core.Card", checks)
+        res.extra["in_coq_crosscheck"] = {"cases": n, "mismatches": bad}
+        res.layer("extraction-vs-vm_compute", bad == 0)
+        if bad:
+            mism.append(("extraction differs from vm_compute on %d cases" % bad,))
+    except Exception as e:  # noqa
+        res.notes.append("in-Coq cross-check not run: %s" % str(e)[:200])
+        mism.append(("in-Coq cross-check failed", str(e)[:200]))
+
     # search: the property itself on the real code
     nsearch = 6 if ctx.quick else 9
     failing = []
